@@ -64,7 +64,7 @@ Definition write_iv (is_client : bool) (k : keys) := if is_client then k_client_
 
 (* what a DTLS 1.2 sender puts on the wire for one record, up to the AEAD / block-cipher primitive:
    the keys it uses, the nonce and additional data (or the CBC plaintext), and the record header *)
-Definition protect12 (mac_as_coded : bool) (id : N) (is_client : bool) (ms cr sr cid payload : bytes)
+Definition protect12 (id : N) (is_client : bool) (ms cr sr cid payload : bytes)
     (e s t v : N) : option (list bytes) :=
   match suite12 id with
   | None => None
@@ -88,9 +88,7 @@ Definition protect12 (mac_as_coded : bool) (id : N) (is_client : bool) (ms cr sr
     | CK_CBC mh =>
         let wm := write_mac is_client k in
         let HM := hash_of_code mh in
-        let mac := if t =? ct_tls12_cid
-                   then (if mac_as_coded then cbc_mac_cid_as_coded HM wm e s v cid payload
-                         else cbc_mac_cid HM wm e s v cid payload)
+        let mac := if t =? ct_tls12_cid then cbc_mac_cid HM wm e s v cid payload
                    else cbc_mac HM wm e s t v payload in
         Some [wm; wk; cbc_plaintext 16 payload mac; header12 t v e s hc (cbc_record_len 16 payload mac)]
     end
